@@ -210,7 +210,7 @@ struct Stats
     uint64_t excluded[VH_MAX_PROPS] = { 0 };
     std::unordered_set<uint64_t> distinct[VH_MAX_PROPS];
     std::vector<std::string> samples[VH_MAX_PROPS];
-    size_t distinct_cap = 3000000;
+    size_t distinct_cap = 250000; // per worker: distinct_nontrivial is a lower bound beyond this
     bool failed = false;
     VhReport fail_rep;
     std::vector<VhTok> fail_tape;
